@@ -484,6 +484,82 @@ func (h *harness) chooseCase(cc chooseCase, record bool) string {
 	return firstBad
 }
 
+// ---- malformed stream --------------------------------------------------------------------------------------------------
+
+func (h *harness) malformedCase(r *vh.RNG) {
+	hb, _ := genHash(r, 0, 0)
+	stake := int64(r.Range(1, 3000))
+	thr := uint64(r.Range(1, 50))
+	total := big.NewInt(int64(r.Range(3000, 100000)))
+	pkErr := false
+	kind := ""
+	switch r.Intn(8) {
+	case 0:
+		kind, total = "total-zero", big.NewInt(0)
+	case 1:
+		kind, total = "total-multiple-of-2^64", new(big.Int).Lsh(big.NewInt(int64(r.Range(1, 5))), 64)
+	case 2:
+		kind, thr = "threshold-zero", 0
+	case 3:
+		kind, stake = "stake-zero", 0
+	case 4:
+		kind, thr = "threshold-above-total(p>1)", uint64(total.Int64())+uint64(r.Range(1, 1000))
+	case 5:
+		kind, pkErr = "vrf-error", true
+	case 6:
+		kind, thr = "threshold-equals-total(p=1)", uint64(total.Int64())
+	default:
+		kind = "plain"
+	}
+	j := int64(0)
+	if total.Sign() > 0 {
+		if jj, pan := realChoose(hb, stake, goP(thr, total)); !pan {
+			j = jj
+		}
+	}
+	sub := uint32(j)
+	if r.Chance(25) {
+		sub += uint32(r.Range(1, 3))
+	}
+	prio := ucon.VrfComputePriority(hashOf(hb), sub)
+	if j > 300 {
+		prio = common.Hash{} // keep the Lean Keccak loop short: a priority mismatch is the expected verdict then
+	}
+	if r.Chance(15) {
+		prio[3] ^= 0x10
+	}
+	pk := &fakePK{h: hashOf(hb)}
+	vrfRes := "ok:" + hex.EncodeToString(pk.h[:])
+	if pkErr {
+		pk.err = fmt.Errorf("invalid VRF proof")
+		vrfRes = "err"
+	}
+	c := claim{pk: pk, seed: crypto.Keccak256Hash(hb.Bytes()), index: 1, role: 2, proof: []byte{7}, sub: sub, priority: prio, thr: thr, stake: big.NewInt(stake), total: total}
+	vs, vp := realVerify(c)
+	body := []string{fmt.Sprintf("malformed %s %d %d %s %d %s %s", hex.EncodeToString(pk.h[:]), stake, thr, total.String(), sub, vrfRes, hex.EncodeToString(prio[:]))}
+	if h.drv != nil && j <= 300 {
+		ls := h.askChoose(fmt.Sprintf("VS %s %d %d %d %s", total.String(), thr, stake, sub, vrfRes), stake)
+		lp := h.askChoose(fmt.Sprintf("VP %s %d %d %d %s %s", total.String(), thr, stake, sub, vrfRes, hex.EncodeToString(prio[:])), stake)
+		h.res.TracesVsImpl += 2
+		if ls != vs {
+			h.fail("correspondence", "corr-verify-sortition", fmt.Sprintf("%s (%s): VrfVerifySortition go=%s lean=%s", body[0], kind, vs, ls), body)
+		}
+		if lp != vp {
+			h.fail("correspondence", "corr-verify-priority", fmt.Sprintf("%s (%s): VrfVerifyPriority go=%s lean=%s", body[0], kind, vp, lp), body)
+		}
+	}
+	// oracle: nothing malformed is ever accepted as a winner's credential
+	if vs == "accept" && (total.Sign() == 0 || pkErr || j <= 0 || uint32(j) != sub) {
+		h.fail("oracle", "oracle-malformed-accepted", fmt.Sprintf("%s (%s): VrfVerifySortition accepted", body[0], kind), body)
+	}
+	if vp == "accept" && (total.Sign() == 0 || pkErr || uint32(j) != sub || prio != ucon.VrfComputePriority(hashOf(hb), uint32(j))) {
+		h.fail("oracle", "oracle-malformed-accepted", fmt.Sprintf("%s (%s): VrfVerifyPriority accepted", body[0], kind), body)
+	}
+	h.res.Dist("malformed-" + kind)
+	h.res.Dist("malformed-verdict-" + vs + "/" + vp)
+	h.res.Count(body[0], kind != "plain")
+}
+
 // ---- generators ----------------------------------------------------------------------------------------------------------
 
 func randBig(r *vh.RNG, bits int) *big.Int {
@@ -699,7 +775,58 @@ func genHash(r *vh.RNG, stake int64, p float64) (*big.Int, string) {
 	}
 }
 
+// genDoubleRounding: a (threshold, total) pair whose quotient is sensitive to the way p is rounded (the 64-bit big.Float
+// quotient lies on a float64 midpoint, so rounding once to 53 bits gives the neighbouring double), a stake with mean
+// around 40, and a hash sitting exactly on a lower-tail CDF step, where F(k) moves by several ulps when p moves by one:
+// pins the derivation of p inside the exported VrfVerifySortition / VrfVerifyPriority.
+func genDoubleRounding(r *vh.RNG) (chooseCase, bool) {
+	for try := 0; try < 60000; try++ {
+		thr := uint64(r.Range(1, 6000))
+		total := int64(thr) * int64(r.Range(4, 200000)) / int64(r.Range(1, 7))
+		if total < int64(thr) {
+			continue
+		}
+		p := goP(thr, big.NewInt(total))
+		if p == float64(thr)/float64(total) || p <= 0 || p >= 0.5 {
+			continue
+		}
+		stake := int64(float64(r.Range(30, 60)) / p)
+		if stake < 1 || stake > 10000000 {
+			continue
+		}
+		mean := float64(stake) * p
+		sd := math.Sqrt(mean * (1 - p))
+		k := int64(mean - (2+float64(r.Intn(20))/10)*sd)
+		if k < 0 {
+			k = 0
+		}
+		c := ff(cdfBits(stake, fb(p), k))
+		if c <= 0 || c >= 0.99 {
+			continue
+		}
+		var x *big.Int
+		if r.Bool() {
+			x = bisect(func(y *big.Int) bool { t, _ := goTarget(y); return t >= c })
+		} else {
+			x = bisect(func(y *big.Int) bool { t, _ := goTarget(y); return t > c })
+			if x != nil {
+				x.Sub(x, big.NewInt(1))
+			}
+		}
+		if x == nil || x.Sign() <= 0 {
+			continue
+		}
+		return chooseCase{hb: x, stake: stake, viaS: true, thr: thr, total: big.NewInt(total), p: p, hclass: "on-step-p-double-rounding"}, true
+	}
+	return chooseCase{}, false
+}
+
 func genChoose(r *vh.RNG) chooseCase {
+	if r.Chance(3) {
+		if cc, ok := genDoubleRounding(r); ok {
+			return cc
+		}
+	}
 	var cc chooseCase
 	cc.stake = genStake(r)
 	if r.Chance(3) {
@@ -937,6 +1064,10 @@ func run(c *vh.Ctx) error {
 		if cc.stake <= 2048 && i%12 == 0 {
 			h.fullTable(cc)
 		}
+	}
+	// malformed / degenerate verifier inputs through the exported API (fake public key returns the chosen hash)
+	for i := 0; i < c.N(1200, 20000)*mult && h.err == nil; i++ {
+		h.malformedCase(r)
 	}
 	// MakeM, priority
 	for i := 0; i < c.N(1500, 20000)*mult && h.err == nil; i++ {
